@@ -157,3 +157,9 @@ package state
 //@   modifies st.Language
 //@   ensures[C18] @known isoKnown(code) ==> result == nil && st.Language != nil && fresh(st.Language) && st.Language.Code == isoPart3(code) && st.Language.Name == isoName(code)
 //@   ensures[C18] @unknown !isoKnown(code) ==> result != nil && st.Language == old(st.Language)
+
+// NewState: room for every configured flag (8 built-in ones and the client's), all clear.
+//@ func NewState
+//@   serves C06, C08
+//@   requires int(BitSize) <= 4294967280
+//@   ensures @flags fresh(result) && fresh(result.Flags) && flagsOk(result) && int(result.BitSize) == int(BitSize) + 8 && result.Language == nil && result.input == nil
